@@ -282,13 +282,27 @@ func (srv *simServer) checkRows(batch input.Batch, toks []float32, vis [][][]vis
 			}
 			symptom := ""
 			detail := ""
+			var missing []int
 			if len(got) != p-lo+1 {
 				if len(got) > p-lo+1 {
 					symptom = "extra-entries"
 				} else {
 					symptom = "missing-entries"
+					// which positions are missing, and is everything that is there right?
+					k := 0
+					for j := lo; j <= p; j++ {
+						if k < len(got) && int(got[k].pos) == j && got[k].tok == info.want[j] {
+							k++
+						} else {
+							missing = append(missing, j)
+						}
+					}
+					if k != len(got) {
+						symptom = "missing-and-wrong-entries"
+						missing = nil
+					}
 				}
-				detail = fmt.Sprintf("sees %d entries, must see the %d entries at positions %d..%d", len(got), p-lo+1, lo, p)
+				detail = fmt.Sprintf("sees %d entries, must see the %d entries at positions %d..%d (missing positions %v)", len(got), p-lo+1, lo, p, missing)
 			} else {
 				for k, e := range got {
 					j := lo + k
@@ -337,8 +351,15 @@ func (srv *simServer) checkRows(batch input.Batch, toks []float32, vis [][][]vis
 				} else {
 					sig = family + ":" + symptom + ":no-defrag"
 				}
-			case ref.has("shift"):
+			case symptom == "missing-entries" && family == "swa" && ref.has("shift") && ref.allEvicted(missing):
+				// The known window hole: every missing entry is one the sliding-window cache had
+				// legitimately evicted, everything else is in place, and a context shift has since
+				// moved the sequence's positions down so that the window reaches back to it
+				// (the TODO at the top of Causal.Remove). Anything else that goes missing after a
+				// shift gets the :unexplained signature below.
 				sig = family + ":" + symptom + ":after-shift"
+			case ref.has("shift"):
+				sig = family + ":" + symptom + ":after-shift:unexplained"
 			case ref.has("fork") || ref.has("trim"):
 				sig = family + ":" + symptom + ":after-resume"
 			default:
@@ -462,7 +483,15 @@ func (w *runWorld) checkStream(srv *simServer, r *reqState) {
 	if !strings.HasPrefix(full, out) {
 		detail := "non-prefix"
 		if !valid {
-			detail = "non-prefix:invalid-utf8-in-generated-text"
+			// The known mechanism: flushPending sends the longest valid prefix of the pending
+			// text and drops the rest, so the stream is the generated text minus segments that
+			// each start at a byte that is not UTF-8 and end at a piece boundary. Only a
+			// divergence of exactly that form gets the known signature.
+			if droppedAfterInvalid(full, out, tk) {
+				detail = "non-prefix:invalid-utf8-in-generated-text"
+			} else {
+				detail = "non-prefix:unexplained"
+			}
 		}
 		w.violate("C14", "stream", "stream:P1:"+detail, "the streamed text %s is not a prefix of the generated text\n  %s", clip(fmt.Sprintf("%q", out)), shape())
 		return
@@ -640,6 +669,66 @@ func (w *runWorld) checkStream(srv *simServer, r *reqState) {
 	if r.cancelled && n > 0 {
 		verifsim.Probe("cancel_midstream")
 	}
+}
+
+// droppedAfterInvalid reports whether out can be obtained from full by deleting segments
+// each of which starts at a byte where UTF-8 decoding fails and ends at a piece boundary
+// (ends[k] = length of the first k+1 pieces), possibly followed by a tail that was never sent.
+func droppedAfterInvalid(full, out string, ends []int) bool {
+	n, m := len(full), len(out)
+	isEnd := make([]bool, n+1)
+	for _, e := range ends {
+		isEnd[e] = true
+	}
+	// rows[i][o]: the first i bytes of full can be turned into the first o bytes of out;
+	// drop[o]: a dropped segment with that o has started before the current position.
+	rows := make([][]bool, n+5)
+	rows[0] = make([]bool, m+1)
+	rows[0][0] = true
+	drop := make([]bool, m+1)
+	anyDrop := false
+	for i := 0; i <= n; i++ {
+		row := rows[i]
+		if i > 0 && isEnd[i] && anyDrop {
+			if row == nil {
+				row = make([]bool, m+1)
+			}
+			for o, d := range drop {
+				if d {
+					row[o] = true
+				}
+			}
+		}
+		if row == nil {
+			continue
+		}
+		rows[i] = nil
+		if row[m] {
+			return true
+		}
+		if i == n {
+			break
+		}
+		rn, sz := utf8.DecodeRuneInString(full[i:])
+		if rn != utf8.RuneError || sz > 1 {
+			for o, ok := range row {
+				if ok && strings.HasPrefix(out[o:], full[i:i+sz]) {
+					if rows[i+sz] == nil {
+						rows[i+sz] = make([]bool, m+1)
+					}
+					rows[i+sz][o+sz] = true
+				}
+			}
+			continue
+		}
+		for o, ok := range row {
+			if ok {
+				drop[o] = true
+				anyDrop = true
+			}
+		}
+	}
+	return false
 }
 
 func clip(s string) string {
